@@ -33,6 +33,8 @@ thread_local! {
     static CS_WATCH: std::cell::Cell<Option<u32>> = const { std::cell::Cell::new(None) };
     static CS_RESULT: std::cell::Cell<Option<bool>> = const { std::cell::Cell::new(None) };
     static IN_SENDER_OP: std::cell::Cell<u32> = const { std::cell::Cell::new(0) };
+    /// which public operation the calling thread is executing: 1 plain send, 2 try_send, 3 async / blocking send
+    static CS_OP: std::cell::Cell<u8> = const { std::cell::Cell::new(0) };
 }
 
 struct NoopWake;
@@ -263,6 +265,16 @@ fn model_send(sh: &Sh) {
             return;
         }
         if w.pending.len() >= w.cap {
+            let op = CS_OP.with(|c| c.get());
+            if op != 1 {
+                let d = format!(
+                    "a {} of item {item} went through the lossy path and discarded the pending queue {:?}: only a plain send may truncate",
+                    if op == 2 { "try_send" } else { "blocking / async send" },
+                    w.pending
+                );
+                w.out.violate("C09", "fallible_send_discarded_queue", d.clone());
+                w.out.violate("C06", "fallible_send_discarded_queue", d);
+            }
             let dropped = std::mem::take(&mut w.pending);
             w.truncations += 1;
             for i in &dropped {
@@ -541,6 +553,7 @@ fn actor_step(sh: &ShRef, a: usize) {
     };
     w(sh, |w| {
         IN_SENDER_OP.with(|c| c.set(c.get() - 1));
+        CS_OP.with(|c| c.set(0));
         CS_ITEM.with(|c| c.set(None));
         CS_WATCH.with(|c| c.set(None));
         w.abstract_state();
@@ -562,6 +575,7 @@ fn poll_async(sh: &ShRef, a: usize, op: AsyncOp) -> Option<AsyncOp> {
             w(sh, |w| {
                 CS_ITEM.with(|c| c.set(Some(item)));
                 CS_RESULT.with(|c| c.set(None));
+                CS_OP.with(|c| c.set(3));
                 w.next_cb += 1;
                 CS_WATCH.with(|c| c.set(Some(w.next_cb)));
             });
@@ -708,6 +722,7 @@ fn start_op_kind(sh: &ShRef, a: usize, sender: &Arc<Sender<Chan>>, kind: usize) 
             w(sh, |w| {
                 CS_ITEM.with(|c| c.set(Some(item)));
                 CS_RESULT.with(|c| c.set(None));
+                CS_OP.with(|c| c.set(1));
             });
             let r = panic::catch_unwind(AssertUnwindSafe(|| sender.send(item)));
             if r.is_err() {
@@ -728,6 +743,7 @@ fn start_op_kind(sh: &ShRef, a: usize, sender: &Arc<Sender<Chan>>, kind: usize) 
             w(sh, |w| {
                 CS_ITEM.with(|c| c.set(Some(item)));
                 CS_RESULT.with(|c| c.set(None));
+                CS_OP.with(|c| c.set(2));
             });
             let r = panic::catch_unwind(AssertUnwindSafe(|| sender.try_send(item)));
             let Ok(r) = r else {
